@@ -80,7 +80,7 @@ def explore(ctx):
     ctx.rule = ('the enumerations of C03-C05 (all configurations), C19 (all histories, object destroyed after each), C07/C08 (all lengths / shapes), C06, C09, C10, C15, C13/C14 (exact heap coefficient blocks) '
                 'and the C16/C17 overload catalogue are re-run on AddressSanitizer+UBSan builds; every sanitizer report is attributed to the enumerated case. '
                 'state = enumerated case of the underlying harness; transition = one library call under the sanitizers; non-trivial as defined by the underlying harness')
-    ctx.bounds = {'tier of the underlying enumerations': ctx.tier, 'sanitizers': 'address (incl. alloc/dealloc and new/delete type mismatch), undefined (non-recoverable)'}
+    ctx.bounds = {'tier of the underlying enumerations': ctx.tier, 'light': 'sanitizer builds skip the cases that exist only for scale (sponge lengths > 40000, Merkle rows > 4096, transforms > 2^13): they add no new memory-access pattern', 'sanitizers': 'address (incl. alloc/dealloc and new/delete type mismatch), undefined (non-recoverable)'}
     ctx.assumptions = ['uninitialised reads are not detected (MemorySanitizer needs an instrumented libstdc++/gmp, not available offline); guard-page arenas and sentinels bound reads/writes of vector code that ASan does not instrument (inline asm)',
                        'leak detection is off: explored cases end their process with _exit']
     env = dict(SAN_ENV)
@@ -123,13 +123,13 @@ def explore(ctx):
     b = ctx.bins
     for prop in ('C03', 'C04', 'C05'):
         ctx.steps['c18_ntt_' + prop] = ctx.steps['c18_ntt']
-        run('c18_ntt_' + prop, b['c18_ntt'], ['--prop', prop, '--lits', ctx.lits_arg()])
+        run('c18_ntt_' + prop, b['c18_ntt'], ['--prop', prop, '--lits', ctx.lits_arg(), '--light', '1'])
         ctx.steps['c18_ntt_' + prop]['extra'] = ['--prop', prop]
     run('c18_hist', b['c18_hist'])
     for n in ('c18_sponge', 'c18_merkle', 'c18_poseidon'):
         for v in ('_avx2', '_avx512'):
             if n + v in b:
-                run(n + v, b[n + v], ['--lits', ctx.lits_arg()])
+                run(n + v, b[n + v], ['--lits', ctx.lits_arg(), '--light', '1'])
     run('c18_cubic', b['c18_cubic'])
     run('c18_conv', b['c18_conv'])
     run('c18_inv', b['c18_inv'])
